@@ -13,7 +13,7 @@ fn bits(lo: u64, hi: u64) -> u32 {
 /// changesets whose sequence ranges tile EXACTLY held ∩ requested — never a sequence the server
 /// does not hold — carrying exactly the buffered rows of that intersection.
 #[kani::proof]
-#[kani::unwind(8)]
+#[kani::unwind(10)]
 fn c05_partial_answer_is_exactly_the_buffered_range() {
     let (hs, he, rs, re, last): (u64, u64, u64, u64, u64) = (kani::any(), kani::any(), kani::any(), kani::any(), kani::any());
     kani::assume(hs <= he && he <= last && rs <= re && re <= last && last <= M);
